@@ -139,6 +139,12 @@ def n1_shift(S: int, k: int) -> bool:
     pre: 0 <= k <= 3
     post: _
     """
+    return shift_body(S, k)
+
+
+def shift_body(S, k):
+    # NOTE: a plain helper WITHOUT a contract: CrossHair enforces the contract of any contracted function that
+    # a lemma calls and silently ignores paths on which the callee's post-condition fails.
     lines = ['\n'] * k + ['# a\n', '\n', 'p\n', 'q\n', '\n', '> x\n', '> - y\n', '\n', '---\n', '- a\n', '\n', '  b\n', '|a|\n', '|-|\n', '|c|\n']
     root = bt.Document.__new__(bt.Document)
     root.footnotes = {}
